@@ -285,6 +285,10 @@ def r6(ctx):
     from . import c03
     sub = type(ctx)(ctx.prop, ctx.facts)
     sub.guard("R03.3", "call-sites", c03.r3_callsites, sub)
+    # .. and the dispatcher they call performs the step: Optimizer::update hands every variant, unconditionally, to its own update (R03.4's dispatch facts)
+    sub2 = type(ctx)(ctx.prop, ctx.facts)
+    sub2.guard("R03.4", "dispatch", c03.r4, sub2)
+    sub.obligations.extend(o for o in sub2.obligations if o["instance"].startswith("dispatch") or o["status"] == "unestablished")
     bad = [o for o in sub.obligations if o["status"] != "ok"]
     for o in bad:
         ctx.bad("R04.6", o["instance"], o["key"].split("/", 3)[-1], o["where"], o["detail"])
